@@ -420,7 +420,8 @@ int Kernel::k_epoll_wait(int epfd, void *events, int maxevents, int timeout_ms, 
             if (r.disarmed) continue;
             auto f = r.wf.lock();
             if (!f) continue;
-            if ((r.events & EPOLLIN) && readable(f.get())) cand.push_back(i);
+            bool hup = f->kind == F_PIPE_R && f->pipe->writers == 0;   // reported whether asked for or not
+            if (((r.events & EPOLLIN) && readable(f.get())) || hup) cand.push_back(i);
         }
         if (!cand.empty()) {
             size_t total = cand.size();
@@ -447,7 +448,10 @@ int Kernel::k_epoll_wait(int epfd, void *events, int maxevents, int timeout_ms, 
             for (size_t j = 0; j < cand.size(); j++) {
                 EpollReg &r = ep->regs[cand[j]];
                 if (j < n) {
-                    out[j].events = EPOLLIN;
+                    auto rf = r.wf.lock();
+                    bool hup = rf && rf->kind == F_PIPE_R && rf->pipe->writers == 0;
+                    out[j].events = ((rf && readable(rf.get())) ? EPOLLIN : 0) | (hup ? EPOLLHUP : 0);
+                    if (hup) R->ctr.fault("peer_hangup");
                     out[j].data = r.data;
                     r.passed_over = 0;
                     bool os = (r.events & EPOLLONESHOT) != 0;
